@@ -48,7 +48,7 @@ Proof. vm_compute. repeat split; reflexivity. Qed.
 (* index and slice expressions of the functions re-derived from the source text never leave their
    bounds: ParseValidNameKV on every byte string, IsExported on every name (the empty one included)
    return normally under a semantics in which s[i] and s[i:j] out of range are run-time panics *)
-From PGV Require Import Base.MiniGo Extracted.SourceFns Model.GoParse Proofs.GoParseProofs.
+From PGV Require Import Base.MiniGo Extracted.SourceFnsParse Model.GoParse Proofs.GoParseProofs.
 Theorem C13_parser_never_panics : forall s : str, exists r, run_parse fn_ParseValidNameKV s = Some r.
 Proof. exact parser_never_panics. Qed.
 Print Assumptions C13_parser_never_panics.
